@@ -35,23 +35,36 @@ def r_C06bcd(root):
                 okb = False
                 out.append(Finding("C06", "C06.b", M, "_end_model_construction", " ".join(ast.unparse(sup).split())[:100], "the first attribute that cannot be set aborts the copy of all remaining attributes: _tx_position/_tx_position_end and later attributes never reach the instance (the class-level values, i.e. the rule's position in the grammar, show through)", witness="user class with a read-only @property for a grammar attribute"))
         ob("C06", "C06.b", M, "_end_model_construction", "per-attribute suppression around " + ast.unparse(c), okb)
-    # ---- C06.c
-    mm = load(root, MM)
-    for q, pname in (("TextXMetaModel.model_from_str", "model_str"), ("TextXMetaModel.internal_model_from_file", "model_str")):
-        fn = find(mm, q); fi = sem.info(fn)
-        for c in [c for c in calls(fn, own=True) if callee_name(c) == "get_model_from_str"]:
+    # ---- C06.c  the text the parser sees is the caller's string / the file's content, character for character
+    def _text_flow(rel, q, callee, recv_ok=lambda c: True):
+        nonlocal inst
+        fn = find(load(root, rel), q); fi = sem.info(fn); params = {a.arg for a in fn.args.args}
+        for c in [c for c in calls(fn, own=True) if callee_name(c) == callee and recv_ok(c)]:
             inst += 1
-            arg = c.args[0] if c.args else next((k.value for k in c.keywords if k.arg == "model_str"), None)
-            okc = True
-            if isinstance(arg, ast.Name) and arg.id == pname and pname in {a.arg for a in fn.args.args}:
-                n = fi.node_of(c); ds = fi.rd.defs_of(n, pname)
-                rebound = [fi.cfg.nodes[d] for d in ds if fi.cfg.nodes[d].kind != "entry"]
-                # reading the file is the one legitimate definition (internal_model_from_file)
-                rebound = [d for d in rebound if not any(callee_name(x) in ("read", "open") for x in calls(d.ast))]
-                if rebound:
-                    okc = False
-                    out.append(Finding("C06", "C06.c", MM, q, " ".join(ast.unparse(rebound[0].ast).split())[:100], "the model text is rewritten before it is parsed: every position, slice and nchar refers to the rewritten text, not to the string the caller passed", witness="model string with CRLF line ends"))
-            ob("C06", "C06.c", MM, q, "text argument of get_model_from_str is the caller's string", okc)
+            arg = c.args[0] if c.args else next((k.value for k in c.keywords if k.arg in ("model_str", "_input")), None)
+            bad = None
+            if not isinstance(arg, ast.Name): bad = (" ".join(ast.unparse(c).split())[:100], "the text handed to %s is %s, not the text itself" % (callee, ast.unparse(arg)[:50] if arg is not None else "missing"))
+            else:
+                n = fi.node_of(c); ds = fi.rd.defs_of(n, arg.id) if n is not None else []
+                for d in ds:
+                    dn = fi.cfg.nodes[d]
+                    if dn.kind == "entry": continue                                   # the caller's string itself
+                    a = dn.ast; v = a.value if isinstance(a, ast.Assign) else None
+                    if isinstance(v, ast.Constant) and v.value is None: continue     # `model_str = None` placeholder before the file is read
+                    # the one legitimate definition: <file>.read() of a file opened in text mode with default newline handling
+                    if isinstance(v, ast.Call) and isinstance(v.func, ast.Attribute) and v.func.attr == "read" and not v.args and not v.keywords:
+                        opens = [x for x in ast.walk(fn) if isinstance(x, ast.Call) and callee_name(x) == "open"]
+                        o_bad = [x for x in opens if any(k.arg in ("newline", "errors") for k in x.keywords) or (len(x.args) > 1 and not (isinstance(x.args[1], ast.Constant) and x.args[1].value in ("r", "rt")))]
+                        if o_bad: bad = (" ".join(ast.unparse(o_bad[0]).split())[:100], "the model file is opened with non-default newline / mode handling: line ends reach the parser untranslated and every line/column after them is off")
+                        continue
+                    bad = (" ".join(ast.unparse(a).split())[:100], "the model text is rewritten before it is parsed (%s): every position, slice, nchar and string value refers to the rewritten text, not to the text the caller passed / the file holds" % (ast.unparse(v)[:50] if v is not None else "re-bound"))
+            for pr in ("C06", "C04", "C28"): ob(pr, "C06.c", rel, q, "text argument of %s is the caller's string / the file content" % callee, bad is None)
+            if bad:
+                for pr in ("C06", "C04", "C28"): out.append(Finding(pr, "C06.c", rel, q, bad[0], bad[1], witness="model text with CRLF line ends / leading blank lines / a string value containing CR LF"))
+    _text_flow(MM, "TextXMetaModel.model_from_str", "get_model_from_str")
+    _text_flow(MM, "TextXMetaModel.internal_model_from_file", "get_model_from_str")
+    _text_flow(M, "get_model_parser.TextXModelParser.get_model_from_str", "parse", recv_ok=lambda c: isinstance(c.func, ast.Attribute) and ast.unparse(c.func.value) == "self")
+    _text_flow(M, "get_model_parser.TextXModelParser.get_model_from_file", "get_model_from_str")
     # ---- C06.d
     inst += 1
     for rel in (M, MM, "textx/lang.py", "textx/scoping/__init__.py", "textx/scoping/providers.py", "textx/scoping/rrel.py", "textx/scoping/tools.py", "textx/exceptions.py"):
